@@ -5,8 +5,9 @@ pre=$1
 /venv/bin/python - "$pre" <<'PY'
 import json, subprocess, os, shutil, glob, sys
 pre = sys.argv[1]
-props = [json.loads(l) for l in open('/verif/properties.jsonl')]
-for p in props:
+props = [json.loads(l) for l in open("/verif/properties.jsonl")]
+ONLY = set(os.environ.get("ONLY_PROPS", "").split()) or {q["id"] for q in props}
+for p in [q for q in props if q["id"] in ONLY]:
     wt = f"/tmp/{pre}_{p['id']}"
     if not os.path.exists(wt):
         subprocess.run(["git", "-C", "/repo", "worktree", "add", "--detach", wt, "HEAD"], check=True, capture_output=True)
